@@ -10,8 +10,8 @@ import (
 	"fmt"
 	"go/ast"
 	"go/token"
+	"hash/fnv"
 	"io"
-	"os"
 	"strconv"
 	"strings"
 
@@ -313,16 +313,15 @@ func genMsgs(r *hc.RNG, big int) (ms []proto.Message, valid bool) {
 	return ms, valid
 }
 
-type cmp struct{ line, impl string }
 
 func run(c *hc.Ctx) error {
 	r := c.Rng
-	var cs []cmp
-	add := func(line, impl string) { cs = append(cs, cmp{line, impl}) }
+	bt := c.NewBatcher()
+	add := bt.Add
 
 	// ---- 1. containers
-	n := c.N(12000, 300000)
-	bigEvery := c.N(3000, 3000)
+	n := c.N(8000, 120000)
+	bigEvery := c.N(4000, 3000)
 	for i := 0; i < n; i++ {
 		big := 0
 		if i%bigEvery == 1 {
@@ -365,7 +364,7 @@ func run(c *hc.Ctx) error {
 		c.Count(fmt.Sprintf("container.count=%d", min(len(ms), 6)))
 		enc := encContainer(ms)
 		line := "cenc " + showMsgs(ms)
-		c.Eval(line, len(ms) > 0)
+		c.Eval(sig(line), len(ms) > 0)
 		add(line, enc)
 		if strings.HasPrefix(enc, "err") {
 			if kind == "valid" || kind == "mismatch" {
@@ -398,13 +397,13 @@ func run(c *hc.Ctx) error {
 			} else if strings.HasPrefix(out, "ok") {
 				c.Fail("container-truncated-accepted", "cdec "+hc.Hex(raw[:k]), "a proper prefix decoded as "+clip(out))
 			}
-			c.Eval("cdec "+hc.Hex(raw[:k]), true)
+			c.Eval(sig("cdec "+hc.Hex(raw[:k])), true)
 			add("cdec "+hc.Hex(raw[:k]), out)
 		}
 	}
 
 	// ---- 2. malformed containers
-	m := c.N(12000, 300000)
+	m := c.N(8000, 120000)
 	for i := 0; i < m; i++ {
 		var b bin.Buffer
 		id := hc.Pick[uint32](r, proto.MessageContainerTypeID, proto.MessageContainerTypeID, proto.MessageContainerTypeID, proto.GZIPTypeID, uint32(r.U64()))
@@ -479,7 +478,7 @@ func run(c *hc.Ctx) error {
 	}
 
 	// ---- 3. results
-	nr := c.N(10000, 200000)
+	nr := c.N(6000, 100000)
 	for i := 0; i < nr; i++ {
 		x := proto.Result{RequestMessageID: i64(r), Result: genBody(r, 0)}
 		if i%4000 == 1 {
@@ -488,7 +487,7 @@ func run(c *hc.Ctx) error {
 		var b bin.Buffer
 		_ = x.Encode(&b)
 		line := fmt.Sprintf("renc %d %s", x.RequestMessageID, hc.Hex(x.Result))
-		c.Eval(line, true)
+		c.Eval(sig(line), true)
 		c.Count("result.valid")
 		add(line, hc.Hex(b.Buf))
 		out, got, left, pan := decResult(append([]byte{}, b.Buf...))
@@ -518,7 +517,7 @@ func run(c *hc.Ctx) error {
 	}
 
 	// ---- 4. unencrypted messages
-	nu := c.N(10000, 200000)
+	nu := c.N(6000, 100000)
 	for i := 0; i < nu; i++ {
 		x := proto.UnencryptedMessage{MessageID: i64(r), MessageData: genBody(r, 0)}
 		var b bin.Buffer
@@ -564,7 +563,7 @@ func run(c *hc.Ctx) error {
 		data []byte
 	}
 	var gcs []gcase
-	ng := c.N(1500, 30000)
+	ng := c.N(1500, 15000)
 	for i := 0; i < ng; i++ {
 		var d []byte
 		switch r.Intn(5) {
@@ -677,7 +676,7 @@ func run(c *hc.Ctx) error {
 		add(fmt.Sprintf("gzdec %s %d %v", hc.Hex(b.Buf), refN, clean), out)
 	}
 	// corrupted / foreign streams and frames
-	nc := c.N(3000, 60000)
+	nc := c.N(3000, 30000)
 	for i := 0; i < nc; i++ {
 		d := bytes.Repeat(r.Bytes(r.Range(1, 16)), r.Range(1, 200))
 		var cb bytes.Buffer
@@ -748,7 +747,7 @@ func run(c *hc.Ctx) error {
 	}
 
 	// ---- 6. the generated mt types read the same frames (implementation cross-check)
-	nm := c.N(2000, 40000)
+	nm := c.N(2000, 20000)
 	for i := 0; i < nm; i++ {
 		cnt := r.Range(0, 4)
 		var ms []proto.Message
@@ -793,25 +792,9 @@ func run(c *hc.Ctx) error {
 
 	c.Res.Rule = "containers: 0..12 (sometimes 30..80) messages with random ids/seqnos and bodies of 0..3000 bytes (aligned or not), periodically 2^19..2^20 bytes, 1/12 each: a body over 1 MiB, a negative length, a length field disagreeing with the body; every valid encoding is decoded with trailing bytes and at a random truncation (non-trivial = at least one message); malformed containers: wrong id, counts −2^31, −1, 0, 2^31−1 with short input, length fields 2^20, 2^20+1, negative, 2^31−1, random bytes; results and unencrypted messages the same way (bad auth_key_id, negative/oversized data length); gzip: random/compressible payloads up to 100 KB, payloads of 10 MiB−1, 10 MiB, 10 MiB+1, 15 MiB, a streamed 64 MiB (1 GiB in thorough) bomb, incompressible 1 MiB (10 MiB−1 and 10 MiB in thorough), bit-flipped / truncated / extended / foreign / double-member streams and cut frames; the generated mt.MsgContainer / mt.RPCResult / mt.GzipPacked must read proto's frames identically. distinct = distinct request line"
 
-	lines := make([]string, len(cs))
-	for i, x := range cs {
-		lines[i] = x.line
-	}
-	if p := os.Getenv("VERIF_DUMP_LINES"); p != "" {
-		_ = os.WriteFile(p, []byte(strings.Join(lines, "\n")+"\n"), 0o644)
-	}
-	outs, err := c.Drv.Batch(lines)
-	if err != nil {
-		return err
-	}
-	for i, o := range outs {
-		if c.Compare(cs[i].line, cs[i].impl, o) {
-			c.Res.TracesValidated++
-		}
-	}
 	c.PartialNote("gzip (klauspost/compress) is a primitive: the model takes the decompressor's output length and clean/unclean end as inputs; memory use of the decompressor is not modelled")
 	c.PartialNote("Go runtime panics other than the make/slice bounds checks made explicit in the model are exercised under recover(), not exhibited by the model")
-	return nil
+	return bt.Done()
 }
 
 // outClass is "ok", "panic" or the error tag of an outcome line.
@@ -824,6 +807,16 @@ func outClass(out string) string {
 		return t
 	}
 	return strings.SplitN(out, " ", 2)[0]
+}
+
+// sig shortens a long request line to a prefix plus a hash (distinctness is counted on it).
+func sig(line string) string {
+	if len(line) <= 300 {
+		return line
+	}
+	h := fnv.New64a()
+	h.Write([]byte(line))
+	return fmt.Sprintf("%s…#%d:%x", line[:200], len(line), h.Sum64())
 }
 
 func clip(s string) string {
